@@ -1209,6 +1209,13 @@ func (a *Assembler) closeHalfConnection(conn *connection, half *halfconnection) 
 		a.pc.replace(p)
 		half.pages--
 	}
+	// pages the stream asked to keep are of no use once the half connection is closed
+	for p := half.saved; p != nil; p = next {
+		next = p.next
+		a.pc.replace(p)
+		half.pages--
+	}
+	half.saved = nil
 
 	if conn.s2c.closed && conn.c2s.closed {
 		if half.stream.ReassemblyComplete(nil) { //FIXME: which context to pass ?
